@@ -638,7 +638,6 @@ def judge(case, obs):
     kind, exp = expect(v, target)
     lc = lit_class(v)
     has_sib = any(o["sib"] for o in case["operands"].values())
-    where = f"{case['mode']}:{case['poskind']}"
     problems = {}  # (kind, signature) -> [frontends]
     info = {"expect": kind, "refusals": []}
     for fe in FRONTENDS:
@@ -686,23 +685,25 @@ def judge(case, obs):
             info.setdefault("got", {})[fe] = short
     verdicts = []
     for (pk, sig), fes in sorted(problems.items()):
+        # Buckets name a root cause: (kind of deviation, deviating front ends, Python type / class of the literal) - never the
+        # op, position or sibling dtype (those are in the detail and in coverage.violations_by_bucket_and_op).
         fe_s = "+".join(fes)
-        if pk == "refuse" or (pk, sig) == ("value", "sign-of-zero"):
-            # typed and untyped GraphBuilder share the constant cache / initializer code: one front end for these root causes
-            fe_s = "+".join(dict.fromkeys("builder" if f == "builder_untyped" else f for f in fes))
+        merged = "+".join(dict.fromkeys("builder" if f == "builder_untyped" else f for f in fes))
+        first = v[0] if isinstance(v, list) else v
+        pyt = "bool" if isinstance(first, bool) else ("int" if isinstance(first, int) else "float")
+        base = lc[:-4] if lc.endswith("list") else lc
         if (pk, sig) == ("value", "sign-of-zero"):
-            bucket = f"value:{fe_s}:sign-of-zero"
-        elif pk == "value":  # root cause is a property of (front ends, literal class), not of op / position / target
-            bucket = f"value:{fe_s}:{lc[:-4] if lc.endswith('list') else lc}:{sig}"
+            bucket = f"value:{merged}:sign-of-zero"  # typed and untyped GraphBuilder share one constant cache
+        elif pk == "value":
+            bucket = f"value:{fe_s}:{base} literal:{sig}"
         elif pk == "odd":
-            fe_s = "+".join(dict.fromkeys("builder" if f == "builder_untyped" else f for f in fes))
-            bucket = f"odd:{fe_s}:{sig}:form={case.get('form', 'positional')}"
+            bucket = f"odd:{merged}:{sig}:form={case.get('form', 'positional')}"
         elif pk == "shape":
-            bucket = f"shape:{fe_s}:{lc}:{where}"
+            bucket = f"shape:{fe_s}:{'list' if isinstance(v, list) else 'scalar'} literal"
         elif pk == "refuse":  # the raising site is the root cause
-            bucket = f"refuse:{fe_s}:{lc[:-4] if lc.endswith('list') else lc}:{sig}"
+            bucket = f"refuse:{merged}:{pyt} literal:{sig}"
         else:
-            bucket = f"{pk}:{fe_s}:{lc}:{where}:{sig}"
+            bucket = f"dtype:{fe_s}:{pyt} literal:{sig}"
         seen = {fe: (obs[fe][:3] + obs[fe][4:] if obs[fe][0] == "val" else obs[fe]) for fe in FRONTENDS if fe in obs}
         detail = (f"{case['text']} (opset {case['V']}, position {case['p']}, operands "
                   f"{ {k: o['dtype'] for k, o in case['operands'].items()} }): rule demands {target} "
@@ -798,7 +799,7 @@ def run_exhaustive(spec, col):
                          sample={"call": case["text"], "opset": V, "position": case["p"], "operands": {n: o["dtype"] for n, o in case["operands"].items()},
                                  "rule_target": case["target"], "observed": {fe: list(o[:3]) + list(o[4:]) if o[0] == "val" else list(o)[:3] for fe, o in obs.items()}})
                 for bucket, detail in verdicts:
-                    col.violation(bucket, detail, {"kind": "single", "case": case}, size=len(case["text"]))
+                    col.violation(bucket, detail, {"kind": "single", "case": case}, size=1)
                     vio_ops[f"{bucket} | {name}"] = vio_ops.get(f"{bucket} | {name}", 0) + 1
     col.extra["violations_by_bucket_and_op"] = vio_ops
 
@@ -981,7 +982,7 @@ def run_sequences(spec, col):
         col.case(("seq", key), any(nontrivial(c) for c in items), classes,
                  sample={"sequence": [c["text"] + "  # " + ",".join(f"{n}:{o['dtype']}" for n, o in c["operands"].items()) for c in items]})
         for b, dtl in verdicts:
-            col.violation("seq:" + b, dtl, {"kind": "seq", "items": items}, size=len(items))
+            col.violation(b, dtl, {"kind": "seq", "items": items}, size=1 + len(items))
 
     drive(sequences(), body, spec["n"], spec["seed"])
 
@@ -1027,7 +1028,7 @@ def replay(case):
         verdicts, _ = judge(c, observe_case(c))
         return verdicts
     verdicts, _, _ = check_sequence(case["items"])
-    return [("seq:" + b, d) for b, d in verdicts]
+    return verdicts
 
 
 def shrink(case, bucket):
@@ -1038,7 +1039,7 @@ def shrink(case, bucket):
 
     def fails(its):
         try:
-            return any("seq:" + b == bucket for b, _ in check_sequence(its)[0])
+            return any(b == bucket for b, _ in check_sequence(its)[0])
         except Exception:  # noqa: BLE001
             return False
 
